@@ -257,6 +257,12 @@ def run(check):
                    "the binary with --target-os over a pre-existing destination")
     positional_members_part(check)
     replay_positional_skip(check)
+    check.rule += ("; annotation-spelling part: the planted program with its `#[typeshare]` annotations respelled (path "
+                   "`typeshare::typeshare`, leading `::`, blanks / tabs / line breaks / comments between `#`, `[`, the path and "
+                   "`]`, with arguments, inside cfg_attr) - all of them alike or each its own way; only spellings the tool takes "
+                   "for an annotation on an ordinary item are demanded; parser::parse and the binary next to an ordinarily "
+                   "annotated file over a pre-existing destination, single-file and folder output")
+    annotation_spelling_part(check, cli_bad, cli_good)
     check.assumptions += ["the generator plants one construct into programs the generator itself considers valid; validity is confirmed by the skipped twin being accepted"]
 
 
@@ -922,6 +928,244 @@ def positional_members_part(check):
                                       "destination_after": open(out, errors="replace").read()[-1500:] if os.path.exists(out) else None},
                                 failing_input=True)
                 break
+
+
+# ----------------------------------------------------------------------------- how the annotation is spelled
+
+SPELL_GAPS = ["", "", " ", "  ", "\t", "\n", "\n    ", " /* shared */ ", "/**/", "// wire type\n", "\r\n"]
+SPELL_PATHS = ["typeshare", "typeshare", "typeshare::typeshare", "::typeshare::typeshare", "typeshare :: typeshare",
+               ":: typeshare ::\ntypeshare", "typeshare::/* the macro */typeshare", "::typeshare"]
+SPELL_ARGS = ["", "", "", '(swift = "Equatable")', '( swift = "Equatable, Hashable" )', "()", '(kotlin = "JvmInline")']
+
+
+def draw_spelling(rng):
+    """-> dict(g1 = between `#` and `[`, g2 = between `[` and the path, path, g3 = after the path, args, g4 = before `]`, wrap)"""
+    gap = (lambda pool: "") if rng.random() < 0.3 else rng.choice          # three in ten: nothing but the path differs
+    sp = dict(g1=gap(SPELL_GAPS), g2=gap(SPELL_GAPS), path=rng.choice(SPELL_PATHS), g3=gap(SPELL_GAPS[:7]),
+              args=rng.choice(SPELL_ARGS), g4=gap(SPELL_GAPS), wrap=rng.random() < 0.08)
+    return sp
+
+
+def spell_item(sp):
+    """the item-level annotation `#[typeshare]` in the spelling sp"""
+    if sp["wrap"]:
+        return "#%s[%scfg_attr(all(), %s%s)%s]" % (sp["g1"], sp["g2"], sp["path"], sp["args"], sp["g4"])
+    return "#%s[%s%s%s%s%s]" % (sp["g1"], sp["g2"], sp["path"], sp["g3"] if sp["args"] else "", sp["args"], sp["g4"])
+
+
+def spell_member(sp):
+    """the opening of a member-level `#[typeshare(..)]` (skip, serialized_as): only the gaps vary - the arguments of these are read
+    from attributes whose path is exactly `typeshare`; never the bare byte sequence `#[typeshare`"""
+    g1, g2 = sp["g1"], sp["g2"]
+    if not g1 and not g2:
+        g2 = " "
+    return "#%s[%stypeshare(" % (g1, g2)
+
+
+def respell(text, rng, uniform):
+    """every `#[typeshare]` / `#[typeshare(` of the program text respelled: all alike (uniform) or each drawn on its own
+    (then a bare `#[typeshare]` may stay among them).  -> (new text, spellings used for item annotations)"""
+    first = draw_spelling(rng)
+    used = []
+
+    def one(m):
+        if m.group(1) == "(":
+            return spell_member(first if uniform else draw_spelling(rng))
+        sp = first if uniform else (draw_spelling(rng) if rng.random() < 0.7 else None)
+        if sp is None:
+            used.append(None)
+            return "#[typeshare]"
+        used.append(sp)
+        return spell_item(sp)
+
+    return re.sub(r"#\[typeshare([\](])", one, text), used
+
+
+def vis(spellings):
+    return " / ".join("`%s`" % a.replace("\n", "\\n").replace("\r", "\\r").replace("\t", "\\t") for a in spellings)
+
+
+def spelling_class(sp):
+    if sp is None:
+        return "bare"
+    gaps = "gaps" if any(sp[k] for k in ("g1", "g2", "g4")) else "tight"
+    comment = "+comment" if any("/" in sp[k] for k in ("g1", "g2", "g4", "path")) else ""
+    path = "cfg_attr" if sp["wrap"] else ("leading-colons" if sp["path"].lstrip().startswith("::") else
+                                          "two-segments" if "::" in sp["path"] else "bare-path")
+    return "%s/%s%s%s" % (path, gaps, comment, "/arguments" if sp["args"] else "")
+
+
+def annotation_spelling_part(check, bad, good):
+    """Dimension: how the `typeshare` ANNOTATION is spelled in the file that holds the unsupported construct.  Every
+    `#[typeshare]` of a planted program (and the opening of every member-level `#[typeshare(..)]`) is rewritten: the path bare /
+    `typeshare::typeshare` / with a leading `::` / `::typeshare` / blanks, line breaks and comments inside the path; blanks, tabs,
+    line breaks (LF, CRLF), block and line comments between `#` and `[`, between `[` and the path, before `]`; with arguments
+    (`(swift = "..")`, `(kotlin = "..")`, `()`); wrapped as `cfg_attr(all(), typeshare)`; all annotations of the file spelled alike
+    (then the byte sequence `#[typeshare` is often nowhere in the file) or each on its own with bare ones left among them.
+    Which spellings the tool under test takes for an annotation is found out from the tool: an ordinary struct under that spelling,
+    in a file that also has a plainly annotated struct, is in the parsed data or is not (`cfg_attr(..)` is not, for the unchanged
+    tool).  Demanded, when every spelling used in the program is one the tool recognises: parser::parse still rejects the program
+    (in-process; equal to the model's answer for the program when no arguments were added), the binary run over the file next to
+    an ordinarily annotated file (single-file and folder output, both orders of arrival) exits non-zero, names the file and
+    changes nothing; the skipped twin respelled the same way is accepted and - when no arguments were added - the binary
+    generates byte for byte what it generates for the twin with `#[typeshare]`.  Programs with a spelling the tool does not
+    recognise are counted, nothing is demanded of them."""
+    if not bad:
+        return
+    rng = check.rng
+    n_bad, n_good = (400, 150) if check.thorough else (90, 30)
+    n_cli, n_twin = (60, 18) if check.thorough else (14, 4)
+    progs = []
+    for c, is_bad in ([(rng.choice(bad), True) for _ in range(n_bad)] + [(rng.choice(good), False) for _ in range(n_good if good else 0)]):
+        if "#[typeshare]" not in c["text"]:
+            check.count("spelling-program-without-a-bare-annotation")
+            continue
+        uniform = rng.random() < 0.7
+        text, used = respell(c["text"], rng, uniform)
+        progs.append(dict(c=c, bad=is_bad, text=text, used=used, uniform=uniform,
+                          tight_free="#[typeshare" not in text, plain_args=all(sp is None or not sp["args"] for sp in used)))
+    # which spellings does the tool take for an annotation?  (an ordinary item, next to a plainly annotated one)
+    spelled = {}
+    for p in progs:
+        for sp in p["used"]:
+            if sp is not None:
+                spelled.setdefault(spell_item(sp), sp)
+    keys = sorted(spelled)
+    probe = lambda a: "%s\npub struct SpelledProbe { pub a: u8 }\n\n#[typeshare]\npub struct PlainProbe { pub b: u8 }\n" % a
+    reqs = [{"op": "parse", "src": probe(a), "crate": "", "file_name": "o", "path": "src/probe.rs"} for a in keys]
+    reqs += [dict(p["c"]["r"], src=p["text"]) for p in progs]
+    ans = runner(reqs)
+    recognised = {}
+    for a, r in zip(keys, ans):
+        dump = json.dumps(r)
+        recognised[a] = "SpelledProbe" in dump and "PlainProbe" in dump and not rejected(r)
+        check.count("spelling-%s: %s" % (spelling_class(spelled[a]), "an annotation" if recognised[a] else "not an annotation"))
+    found = []
+    for p, r in zip(progs, ans[len(keys):]):
+        p["impl"] = r
+        p["demanded"] = all(sp is None or recognised[spell_item(sp)] for sp in p["used"])
+        check.saw(("spelling", p["text"]), nontrivial=p["bad"] and p["demanded"])
+        check.count("spelling-%s-%s" % ("rejected-program" if p["bad"] else "skipped-twin", "all-alike" if p["uniform"] else "each-its-own"))
+        if p["tight_free"]:
+            check.count("spelling-file-without-the-bytes-#[typeshare")
+        if not p["demanded"]:
+            check.count("spelling-nothing-demanded (a spelling the tool does not take for an annotation): %s" % (
+                "rejected" if rejected(r) else "accepted"))
+            continue
+        case = {"source": p["text"], "source_with_plain_annotations": p["c"]["text"], "planted": p["c"]["kind"],
+                "spellings": sorted(set(spell_item(sp) for sp in p["used"] if sp is not None)),
+                "request": dict(p["c"]["r"], src=p["text"])}
+        if p["bad"] and not rejected(r):
+            found.append((len(case["spellings"]) * 10 ** 6 + len(p["text"]), "parser::parse accepts a program with an unsupported construct (%s) without an error once its "
+                          "annotations are spelled %s (rejected with `#[typeshare]`)" % (
+                              p["c"]["kind"], vis(case["spellings"])), case, r, p["c"]["model"], True))
+        elif not p["bad"] and rejected(r):
+            found.append((len(p["text"]), "parser::parse rejects the skipped twin (%s) once its annotations are spelled %s (accepted with "
+                          "`#[typeshare]`)" % (p["c"]["kind"], vis(case["spellings"])),
+                          case, r, p["c"]["model"], True))
+        elif p["plain_args"] and r != p["c"]["model"] and p["c"]["model"] == p["c"]["impl"]:
+            found.append((10 ** 9 + len(p["text"]), "parser::parse on a planted program (%s) with respelled annotations differs from the model's "
+                          "answer for that program: %s" % (p["c"]["kind"], l1.first_diff(p["c"]["model"], r)), case, r, p["c"]["model"], False))
+    for size, what, case, impl, mod_, failing in sorted(found, key=lambda t: (t[0], t[1]))[:1]:
+        if failing:
+            check.violation(what, case=case, impl=impl, model=mod_, failing_input=True)
+        else:
+            check.violation(what, case=case, impl=impl, model=mod_, failing_input=False,
+                            broken="correspondence L1 parser::parse (theorems TsV.C08.*)")
+    # --- the binary
+    must = [p for p in progs if p["bad"] and p["demanded"]]
+    # half of the runs on files in which the bytes `#[typeshare` occur nowhere
+    free = [p for p in must if p["tight_free"]]
+    picks = rng.sample(free, min(n_cli // 2, len(free)))
+    picks += rng.sample(must, min(n_cli - len(picks), len(must)))
+    reported = 0
+    for idx, p in enumerate(picks):
+        lang = LANGS[idx % len(LANGS)]
+        folder = idx % 3 == 2
+        with Scratch() as sc:
+            if folder:
+                bad_crate, ok_crate = ("aaa", "zzz") if idx % 2 else ("zzz", "aaa")
+                shown = "proj/%s/src/lib.rs" % bad_crate
+                sc.write(shown, p["text"])
+                sc.write("proj/%s/src/ok.rs" % ok_crate, "#[typeshare]\npub struct Fine { pub a: u8 }\n")
+                sc.write("outdir/keep.txt", "PRE-EXISTING\n")
+                sc.write("outdir/%s.%s" % (ok_crate, EXT[lang]), "PRE-EXISTING\n")
+                dest = "outdir"
+            else:
+                shown = "proj/src/lib.rs"
+                sc.write(shown, p["text"])
+                sc.write("proj/src/ok.rs", "#[typeshare]\npub struct Fine { pub a: u8 }\n")
+                dest = "out." + EXT[lang]
+                sc.write(dest, "PRE-EXISTING\n")
+            before = snapshot(sc.dir)
+            args = ["--lang", lang, "-d" if folder else "-o", dest, "proj"] + lang_args(lang)
+            for order in ("0,1", "1,0"):
+                r = run_cli(args, cwd=sc.dir, env={"TYPESHARE_VERIF_ORDER": order}, timeout=120)
+                if r["timed_out"] or r["rc"] == 0:
+                    break
+            after = snapshot(sc.dir)
+            check.saw(("spelling-cli", lang, folder, p["text"]), nontrivial=True)
+            check.count("spelling-cli-rejected-program" + ("-folder-output" if folder else ""))
+            problems = []
+            if r["timed_out"]:
+                problems.append("timed out")
+            elif r["rc"] == 0:
+                problems.append("exit status 0")
+            if after != before:
+                problems.append("files changed: %s" % sorted(k for k in set(after) | set(before) if after.get(k) != before.get(k)))
+            if not r["timed_out"] and shown not in r["err"] + r["out"]:
+                problems.append("no diagnostic names the file (%s)" % shown)
+            if problems:
+                sps = sorted(set(spell_item(sp) for sp in p["used"] if sp is not None))
+                check.violation("CLI on a program with an unsupported construct (%s) whose annotations are spelled %s, next to an "
+                                "ordinarily annotated file (%s, %s output): %s" % (
+                                    p["c"]["kind"], vis(sps), lang,
+                                    "folder" if folder else "single-file", "; ".join(problems)),
+                                case={"source": p["text"], "source_with_plain_annotations": p["c"]["text"], "planted": p["c"]["kind"],
+                                      "spellings": sps, "lang": lang, "file_with_the_source": shown,
+                                      "other_files": "proj/%ssrc/ok.rs holds `#[typeshare] pub struct Fine { pub a: u8 }`; %s holds `PRE-EXISTING`" % (
+                                          ok_crate + "/" if folder else "", "every file of outdir/" if folder else dest),
+                                      "command": "cd <workspace> && typeshare " + " ".join(args), "order_of_arrival": order},
+                                impl={"rc": r["rc"], "stderr": r["err"][-2000:], "destination_after": show(produced(sc, dest))},
+                                failing_input=True)
+                reported += 1
+                if reported >= 2:
+                    return
+    # --- the skipped twin through the binary: what it generates does not depend on the spelling of the annotation
+    twins = [p for p in progs if not p["bad"] and p["demanded"] and p["plain_args"] and not rejected(p["impl"])]
+    free = [p for p in twins if p["tight_free"]]
+    picks = rng.sample(free, min(n_twin // 2, len(free)))
+    picks += rng.sample(twins, min(n_twin - len(picks), len(twins)))
+    for idx, p in enumerate(picks):
+        lang = LANGS[idx % len(LANGS)]
+        got = []
+        for text in (p["c"]["text"], p["text"]):
+            with Scratch() as sc:
+                sc.write("proj/src/lib.rs", text)
+                sc.write("proj/src/ok.rs", "#[typeshare]\npub struct Fine { pub a: u8 }\n")
+                dest = "out." + EXT[lang]
+                args = ["--lang", lang, "-o", dest, "proj"] + lang_args(lang)
+                r = run_cli(args, cwd=sc.dir, timeout=120)
+                got.append((r, produced(sc, dest)))
+        (r0, p0), (r1, p1) = got
+        check.saw(("spelling-cli-twin", lang, p["text"]), nontrivial=False)
+        if r0["rc"] != 0 or r0["timed_out"]:
+            check.count("spelling-cli-twin-not-generated-with-plain-annotations")      # consts in a back end without them: C07
+            continue
+        check.count("spelling-cli-skipped-twin")
+        if r1["rc"] != 0 or p1 != p0:
+            sps = sorted(set(spell_item(sp) for sp in p["used"] if sp is not None))
+            check.violation("CLI, the skipped twin (%s) with its annotations spelled %s (%s): %s" % (
+                p["c"]["kind"], vis(sps), lang,
+                "exit status %s although the same program with `#[typeshare]` is generated" % r1["rc"] if r1["rc"] != 0 else
+                "the run succeeds but does not generate what the same program with `#[typeshare]` gives"),
+                case={"source": p["text"], "source_with_plain_annotations": p["c"]["text"], "planted": p["c"]["kind"], "spellings": sps,
+                      "lang": lang, "file_with_the_source": "proj/src/lib.rs",
+                      "other_files": "proj/src/ok.rs holds `#[typeshare] pub struct Fine { pub a: u8 }`",
+                      "command": "cd <workspace> && typeshare " + " ".join(args)},
+                impl={"rc": r1["rc"], "stderr": r1["err"][-1500:], "destination_after": show(p1)},
+                model={"with_plain_annotations": show(p0)}, failing_input=True)
+            return
 
 
 def pos_cfg(lang):
